@@ -1,4 +1,4 @@
-SOURCE_COMMITS = ['2a82dd5', '23b3277', 'd11a4bc', '0ff938d', 'f5c3f96', '4d27d01', '24cde5a', 'eabce87', '6660817', '6b4eb47', '2cb23c1', '3b6902e', '3a1ed2d', '294bb7e', 'fce13cd']
+SOURCE_COMMITS = ['2a82dd5', '23b3277', 'd11a4bc', '0ff938d', 'f5c3f96', '4d27d01', '24cde5a', 'eabce87', '6660817', '6b4eb47', '2cb23c1', '3b6902e', '3a1ed2d', '294bb7e', 'fce13cd', '0d26e09']
 NOTES = ('Exit codes of ./check: 0 all obligations discharged; 1 violation (VIOLATION line); '
          '2 undecided (solver unknown / extraction failure / contract binding lost); 3 checker crash. '
          'See DESIGN.md.')
@@ -167,4 +167,13 @@ CLAIMED = {
    note='Trusted: LEM-UNIF, definitions of the reductions, IEEE-754 RNE for float32 (XLA CPU flushes subnormals), |values| <= 2^100 '
         "for fp.usq.finite. Known finding D-11b: range overflow gives NaN. Not covered: arithmetic-coding bit counts, "
         'statistical independence (bounded native sampling).'),
+ 'C02': dict(
+   text='Client programs are uninterpreted (INIT, STEP, FINAL); FOLD/RES are the spec. jit and debug backends and the '
+        'for_each_client wrapper: nested loop invariants (state = FOLD(c, k), owned; k step results; one tuple per client in order) '
+        'with the generator consumed at its yields; donation obligations (only owned copies are donated). pmap: p_client_step with '
+        'a symbolic mask (unbounded), run_block at an arbitrary lane for any number of padding rounds (unbounded), run + _blockify '
+        'by symbolic execution of the real code for 23 concrete block structures (bounded). Backend choice: set/context manager '
+        'executed for every argument kind x previous selection x normal/exceptional exit; thread-local frame checks.',
+   note='Trusted: jit/pmap compute their function lane-wise, aliasing rules, threading.local. Bounded: block structures, native '
+        'backend equality for device counts 1..8, one thread interleaving.'),
 }
